@@ -53,6 +53,7 @@ def cfgOfArgs (kv : List (String × String)) : Cfg :=
     openCutsTornTail := triArg kv "openCutsTornTail" false
     apiValidatesKeys := triArg kv "apiValidatesKeys" false
     apiBoundsNameLength := triArg kv "apiBoundsNameLength" false
+    tuiListsAll := triArg kv "tuiListsAll" false
     v2Fallback := triArg kv "v2Fallback" true
     rejectsLongName := triArg kv "rejectsLongName" false }
 
